@@ -488,7 +488,7 @@ func c12Eval(c *runCtx, names, labels, titles []string) {
 		var outs []any
 		allVals := append(append(append([]string{}, names...), labels...), titles...)
 		for k := 0; k < Q; k++ {
-			s, _ := randStructQuery(r, append(names, string(ids[0])[:5], strings.ToUpper(string(ids[1])[:4])), labels, titles)
+			s, _ := randStructQuery(r, append(names, string(ids[0])[:5], upperPrefix(string(ids[1]))), labels, titles)
 			if k%8 == 7 {
 				// any-of within one kind: two or three metadata qualifiers on the same key with different values
 				// (and status, author, actor, participant given several times)
@@ -666,7 +666,7 @@ func c12Eval(c *runCtx, names, labels, titles []string) {
 				seen[id] = true
 			}
 		}
-		clean, lower := [][]string{}, lowerPairs(append(allVals, string(ids[0])[:5], strings.ToUpper(string(ids[1])[:4])))
+		clean, lower := [][]string{}, lowerPairs(append(allVals, string(ids[0])[:5], upperPrefix(string(ids[1]))))
 		for _, v := range []string{"OPEN", "Closed", " open"} {
 			clean = append(clean, []string{v, strings.ToLower(strings.TrimSpace(v))})
 		}
@@ -682,4 +682,15 @@ func idStrs(l []entity.Id) []string {
 		out = append(out, string(x))
 	}
 	return out
+}
+
+// upperPrefix: an id prefix in upper case that differs from the id's own spelling: the shortest prefix of at
+// least four characters that holds a hex letter (an all-digit prefix reads the same in both cases)
+func upperPrefix(id string) string {
+	for n := 4; n <= len(id); n++ {
+		if strings.ContainsAny(id[:n], "abcdef") {
+			return strings.ToUpper(id[:n])
+		}
+	}
+	return strings.ToUpper(id)
 }
